@@ -205,8 +205,11 @@ class StructuredGrid(Grid):
             if i in self._stepDims[0]:
                 unitSteps.append(compressedSteps.pop(0))
             else:
-                # Add dummy value which will never get used (it gets reduced away)
-                unitSteps.append(0)
+                # Add dummy value which will never get used (it gets reduced away). It has the
+                # shape of a step so that the steps stay a regular array the constructor accepts.
+                unitSteps.append(
+                    0 if self._unitSteps.ndim < 2 else (0,) * self._unitSteps.shape[1]
+                )
         unitSteps = _tuplify(unitSteps)
 
         return GridParameters(
